@@ -26,6 +26,9 @@ UNIVERSAL = {
 }
 
 
+_CUR_TESTS: t.List[t.Tuple[ast.expr, bool]] = []  # the branch conditions (with polarity) enclosing the statement being read
+
+
 class Item:
     def __init__(self, kind: str, tag: t.Optional[Tag] = None, field: t.Optional[str] = None, children: t.Optional[t.List["Item"]] = None, optional: t.Optional[str] = None, cls: t.Optional[str] = None, node: t.Optional[ast.AST] = None) -> None:
         self.kind = kind  # prim:<type> | seq | set | nested | raw | repeat
@@ -35,6 +38,7 @@ class Item:
         self.optional = optional
         self.cls = cls
         self.node = node
+        self.tests: t.List[t.Tuple[ast.expr, bool]] = list(_CUR_TESTS)
 
     def sig(self, with_fields: bool = True) -> t.Tuple[t.Any, ...]:
         return (
@@ -350,9 +354,24 @@ class ReaderShape:
                 continue
             if isinstance(s, ast.If):
                 cond = unparse(s.test)
-                self.block(s.body, cond)
+                outer = f"{optional} and " if optional else ""
+                _CUR_TESTS.append((s.test, True))
+                try:
+                    self.block(s.body, outer + cond)
+                finally:
+                    _CUR_TESTS.pop()
                 if s.orelse:
-                    self.block(s.orelse, f"not ({cond})")
+                    _CUR_TESTS.append((s.test, False))
+                    try:
+                        self.block(s.orelse, outer + f"not ({cond})")
+                    finally:
+                        _CUR_TESTS.pop()
+                continue
+            if isinstance(s, ast.Expr) and isinstance(s.value, ast.Call):
+                rc0 = self.reader_call(s.value)
+                if rc0 is not None and (rc0[2].startswith("read_") or rc0[2] in ("skip_value", "get_remaining_data")):
+                    # an element is consumed and thrown away: the writer has no counterpart for it
+                    rc0[0].append(Item(f"discarded:{rc0[2]}", field=None, optional=optional, node=s.value))
                 continue
             if isinstance(s, ast.While):
                 mark = {k: len(v) for k, v in self.readers.items()}
